@@ -1404,8 +1404,11 @@ func (r Stack) CanNest() (can bool) {
 IsPadded returns a Boolean value indicative of whether the
 receiver pads its contents with a SPACE char (ASCII #32).
 */
-func (r Stack) IsPadded() bool {
-	return !r.getState(nspad)
+func (r Stack) IsPadded() (is bool) {
+	if r.IsInit() {
+		is = !r.getState(nspad)
+	}
+	return
 }
 
 /*
